@@ -407,10 +407,20 @@ func NewRouterEnv(spec string) (*RouterEnv, error) {
 	if parts["T"] == "1" {
 		kinds = append(kinds, TlsListenerKinds...)
 	}
+	if parts["W"] == "1" {
+		// "udpmr": a UDP listener on the wildcard address with udp.multi_routes (replies must leave from the address the
+		// query was sent to: IP_PKTINFO); queried at 127.0.0.2 / 127.0.0.3 with connected sockets
+		kinds = append(kinds, "udpmr")
+	}
 	for _, k := range kinds {
 		p := FreePort()
 		env.Ports[k] = p
 		sc := router.ServerConfig{Tag: k, Protocol: k, Listen: fmt.Sprintf("127.0.0.1:%d", p)}
+		if k == "udpmr" {
+			sc.Protocol = "udp"
+			sc.Listen = fmt.Sprintf("0.0.0.0:%d", p)
+			sc.Udp.MultiRoutes = true
+		}
 		sc.Tcp.MaxConcurrentQueries = int32(maxc)
 		if k == "http" || k == "fasthttp" || k == "https" {
 			sc.Http.ClientAddrHeader = "X-Verif-Client"
@@ -465,8 +475,13 @@ func (e *RouterEnv) Close() {
 func (e *RouterEnv) Query(l string, wire []byte, client string, timeout, grace time.Duration) (resps [][]byte, status string) {
 	port := e.Ports[strings.TrimSuffix(strings.TrimSuffix(l, "-get"), "-post")]
 	switch {
-	case l == "udp":
-		c, err := net.DialUDP("udp", nil, &net.UDPAddr{IP: net.IPv4(127, 0, 0, 1), Port: port})
+	case l == "udp" || l == "udpmr":
+		dst := net.IPv4(127, 0, 0, 1)
+		if l == "udpmr" {
+			// a non-primary local address; the connected socket only accepts a reply coming from exactly this address
+			dst = net.IPv4(127, 0, 0, byte(2+len(wire)%2))
+		}
+		c, err := net.DialUDP("udp", nil, &net.UDPAddr{IP: dst, Port: port})
 		if err != nil {
 			return nil, "dial-error"
 		}
